@@ -335,36 +335,38 @@ macro "wait_leaf" : tactic => `(tactic| (fx_exec [WaitCtl] <;> fx_abs []))
 
 set_option hygiene false in
 /-- one iteration of a futex wait loop (`inp1` = the oracle): case analysis on the values the load of the futex word,
-FUTEX_WAIT, `errno` (twice on the `urcu_die` path) and `urcu_die` return -/
-macro "wait_body" : tactic =>
+FUTEX_WAIT, `errno` (twice on the `urcu_die` path) and `urcu_die` return; `leaf` closes each case -/
+macro "wait_body_with" leaf:tacticSeq : tactic =>
   `(tactic| (
     cases inp1 with
-    | nil => wait_leaf
+    | nil => ($leaf)
     | cons v r1 =>
       by_cases hv : v = .int (-1)
       · subst hv
         cases r1 with
-        | nil => wait_leaf
+        | nil => ($leaf)
         | cons r r2 =>
           by_cases hr : r = .int 0
-          · subst hr; wait_leaf
+          · subst hr; ($leaf)
           · have hrt := truthy_of_ne hr
             cases r2 with
-            | nil => wait_leaf
+            | nil => ($leaf)
             | cons e r3 =>
               by_cases he : e = .int 11
-              · subst he; wait_leaf
+              · subst he; ($leaf)
               · by_cases he4 : e = .int 4
-                · subst he4; wait_leaf
+                · subst he4; ($leaf)
                 · cases r3 with
-                  | nil => wait_leaf
+                  | nil => ($leaf)
                   | cons e2 r4 =>
                     cases r4 with
-                    | nil => wait_leaf
-                    | cons d r5 => wait_leaf
+                    | nil => ($leaf)
+                    | cons d r5 => ($leaf)
       · cases v with
-        | int n => have hn : n ≠ -1 := fun h => hv (by rw [h]); wait_leaf
-        | ptr l => wait_leaf))
+        | int n => have hn : n ≠ -1 := fun h => hv (by rw [h]); ($leaf)
+        | ptr l => ($leaf)))
+
+macro "wait_body" : tactic => `(tactic| wait_body_with wait_leaf)
 
 /-- what a futex wait loop guarantees (`out` = the run of the `.loop` statement): from pc `chk`, under the system-call
 contract, the events are a run of the generic waiter, which is at `done` when the loop was left (by `break`/`goto`:
